@@ -58,7 +58,15 @@ func types(outs []rig.Out) string {
 func runHistory(c *vk.Ctx, cfg cfgT, hist []int, idx int64) bool {
 	desc := describe(cfg, hist)
 	replay := map[string]interface{}{"history": desc, "index": idx, "seed": c.Seed}
+	var rigRef *rig.StepRig
+	tooSlow := false
 	viol := func(key, detail string, step int) {
+		// a history that has been running for seconds (machine overload) may have had a timer fire inside it:
+		// nothing about it is believed
+		if rigRef != nil && rigRef.Elapsed() > 3*time.Second {
+			tooSlow = true
+			return
+		}
 		c.Violate(key, fmt.Sprintf("step %d of [%s]: %s", step, desc, detail), replay)
 	}
 	scfg := rig.StepCfg{Role: cfg.role, HeartBtInt: cfg.hb, Limits: &session.IntLimits{Min: cfg.lim[0], Max: cfg.lim[1]},
@@ -75,6 +83,7 @@ func runHistory(c *vk.Ctx, cfg cfgT, hist []int, idx int64) bool {
 		return false
 	}
 	defer r.Close()
+	rigRef = r
 	p := rig.NewPeer()
 	const (
 		W = iota // waiting for a Logon
@@ -274,7 +283,7 @@ func runHistory(c *vk.Ctx, cfg cfgT, hist []int, idx int64) bool {
 		c.SetAdd("automaton_transitions", cfg.role.String()+"/"+from+"-"+sy.Name+"->"+[]string{"W", "L", "U"}[state])
 		prevLogged = res.Logged
 	}
-	if r.Elapsed() > 4*time.Second {
+	if tooSlow || r.Elapsed() > 3*time.Second {
 		c.Inconclusive(fmt.Sprintf("history took %v (timers may have fired): %s", r.Elapsed(), desc))
 		return false
 	}
